@@ -108,6 +108,21 @@ def gen_case(g, prop):
         other = dict(kind='dir', name='zz2', spelled='abs', children=[dict(name='zz_only.cmake', content='function(zz_f)\nendfunction()\n')])
         case['inputs'] = [inp, other] if g.random() < 0.5 else [other, inp]
         case['target'] = case['inputs'].index(inp)
+    if prop == 'C18' and inp['kind'] == 'dir':
+        # where the -o run writes (`with_o`: the -o run that the pages printed without -o are compared with)
+        k = g.random(); slot = 'output' if output is not None else 'with_o'
+        if k < 0.3 and output in ('abs', 'rel', None):
+            # the input directory itself, its parent or its grandparent (cminx -o . . / cminx -o .. .): the pages land beside or above the sources
+            case[slot] = g.choice(['equal', 'above', 'above'])
+            if case[slot] == 'above': case['levels'] = g.choice([1, 1, 2])
+        elif k < 0.55 and output in ('nested', None):
+            # nested in the input AND already there, holding other files, CMake files among them: these are input like any other.
+            # (auto-exclusion on: it keeps the walk out of the page directories that the run itself creates in there on its way)
+            nm = g.choice(['_docs', 'docs', 'api'])
+            if nm not in {c['name'].lower() for c in children}:
+                cm = [dict(name=f, content=T.file_content(g, f)) for f in g.sample(['helpers.cmake', 'Conf.CMake', 'zz.cmake'], g.randint(1, 2))]
+                children.append(dict(name=nm, children=cm + [dict(name='keep.txt', content='unrelated')]))
+                st['auto_exclude'] = True; st['recursive'] = True; case[slot] = 'nested'; case['nested_name'] = nm
     return case
 
 
@@ -155,11 +170,34 @@ def find_content(children, rel):
     return None
 
 
+def run_layout(sb_dir, case, variant, **kw):
+    """T.run_real, plus the output directories it has no name for: the input directory itself ('equal': `cminx -o . .`) and its parent or
+    grandparent ('above', `levels` up: `cminx -o .. .`).  Whenever files of the input tree lie below the output directory (these two, and
+    an output nested in the input at a directory that the tree already has) they are "unrelated files already in the output directory":
+    result['damaged'] lists those that did not keep their bytes, and result['files'] is what the run added to the output directory"""
+    mode = case.get('output'); own = {}
+    if case['inputs'][0]['kind'] == 'dir' and mode in ('equal', 'above'):
+        up = case.get('levels', 1) if mode == 'above' else 0
+        case = dict(case, output='nested', nested_name=os.path.join(*['..'] * up) if up else '.')
+    r = T.run_real(sb_dir, case, variant, **kw)
+    def below(ch, path):
+        for c in ch:
+            q = os.path.relpath(os.path.join(path, c['name']), r['out_abs'])
+            if 'children' in c and not c.get('dirlink'): below(c['children'], os.path.join(path, c['name']))
+            elif 'children' not in c and not q.startswith(os.pardir + os.sep): own[q] = c['content']
+    for i, p in zip(case['inputs'], r['abs_inputs']):
+        if i['kind'] == 'dir' and r['out_abs']: below(i['children'], p)
+    # no generated name ends in .rst and no directory of a tree is named like an input directory: a page never lands on one of these
+    r['damaged'] = sorted(p for p, t in own.items() if r['files'].get(p) != t)
+    for p in own: r['files'].pop(p, None)
+    return r
+
+
 def check_case(prop, case, sb, drv, key, out, n_orders=3):
     g = random.Random(repr(key) + 'orders')
     tgt = case.get('target', 0)
     inp = case['inputs'][tgt]
-    real = T.run_real(sb.dir, case, variant='v0')
+    real = run_layout(sb.dir, case, variant='v0')
     if len(case['inputs']) > 1:
         real['abs_inputs_all'] = real['abs_inputs']; real['abs_inputs'] = [real['abs_inputs'][tgt]]
     out.traces_validated += 1
@@ -294,9 +332,13 @@ def check_case(prop, case, sb, drv, key, out, n_orders=3):
             vios.append(dict(kind='files outside the output directory changed', changed=list(real['changed_outside_output'].items())[:5]))
         if case.get('output') == 'prepopulated' and not real.get('unrelated_intact'):
             vios.append(dict(kind='unrelated files in the output directory were touched'))
+        if real['damaged']:
+            vios.append(dict(kind='files of the input tree lying in the output directory were changed or removed', paths=real['damaged'][:5]))
         if case.get('output') is None:
-            c2 = copy.deepcopy(case); c2['output'] = 'abs'
-            r2 = T.run_real(sb.dir, c2, variant='with_o')
+            c2 = copy.deepcopy(case); c2['output'] = case.get('with_o', 'abs')
+            r2 = run_layout(sb.dir, c2, variant='with_o')
+            if r2['changed_outside_output'] or r2['damaged']:
+                vios.append(dict(kind='the same invocation with -o changed files other than its pages', changed=list(r2['changed_outside_output'].items())[:5], damaged=r2['damaged'][:5]))
             pages = []
             for relf in order:
                 pages.append(r2['files'].get(os.path.join(*(relf[:-1] + ['.'.join(relf[-1].split('.')[:-1]) + '.rst']))))
@@ -409,7 +451,7 @@ def replay(prop):
             import s_cli
             case = v['case']
             with impl.Sandbox() as sb:
-                api = T.run_real(sb.dir, case, variant='api'); cli = s_cli.run_main(sb.dir, case, 'cli')
+                api = T.run_real(sb.dir, case, variant='api'); cli = s_cli.run_main(sb.dir, case, 'cli', out_mode=case.get('cli_out', 'abs'))
             bad = cli['status'] != api['status'] or (cli['stdout'] != api['stdout'] if case.get('output') is None else cli['files'] != api['files'])
             return dict(fails=bool(bad), api_status=api['status'], cli_status=cli['status'], cli_stdout=cli['stdout'][:500], api_stdout=api['stdout'][:500])
         with impl.Sandbox() as sb:
